@@ -7,6 +7,7 @@
 //      accessors, file bytes and exact re-optimisation.
 //  (C) the long cycle [optimize, SCALER off, optimize, SCALER back] x 12 that crosses the "stop re-scaling" threshold.
 #include "vx_history.hpp"
+#include "vx_planted.hpp"
 using namespace vx;
 
 static std::string g_tmp;
@@ -42,14 +43,14 @@ static SPxScaler<double>* scaler_of(SoPlex& spx, int k)
 }
 
 // (A)
-static uint64_t run_bare(const TinyLP& t, int sc, Ctx& c)
+static uint64_t run_bare(const TinyLP& t, int sc, Ctx& c, const std::string* caseName = nullptr)
 {
    SoPlex owner;
    quiet(owner);
    SPxLPBase<double> lp;
    build_lp(lp, t, owner);
    SPxScaler<double>* S = scaler_of(owner, sc);
-   std::string cs = t.str() + "#" + SCNAME[sc];
+   std::string cs = (caseName ? *caseName : t.str()) + "#" + SCNAME[sc];
    S->scale(lp, true);
    c.count("bare_scalings");
    int n = t.n, m = t.m;
@@ -144,7 +145,9 @@ static std::string file_bytes(const std::string& path)
 static std::string written(SoPlex& spx, const char* ext)
 {
    std::string f = g_tmp + "/w" + std::to_string(getpid()) + ext;
-   spx.writeFileReal(f.c_str(), nullptr, nullptr, nullptr, true, true);
+   // the MPS writer throws for an LP with a free row (known finding of C12, nothing to do with scaling): the scaled and the never-scaled object must then both throw
+   try { spx.writeFileReal(f.c_str(), nullptr, nullptr, nullptr, true, true); }
+   catch(const SPxException& e) { unlink(f.c_str()); return std::string("exception:") + e.what(); }
    std::string s = file_bytes(f);
    unlink(f.c_str());
    return s;
@@ -172,10 +175,12 @@ static std::string judge(int st, double obj, const Classification& cl)
 }
 
 // (B)
-static uint64_t run_spx(const TinyLP& t, int sc, int ps, int simp, int depth, Ctx& c)
+// plantedCl / caseName given: medium-size planted LP - its classification is known by construction; after a modification the re-optimised (scaled) object is
+// compared with a fresh object holding the final model that never scales (differential oracle instead of basis enumeration)
+static uint64_t run_spx(const TinyLP& t, int sc, int ps, int simp, int depth, Ctx& c, const Classification* plantedCl = nullptr, const std::string* caseName = nullptr)
 {
-   std::string cfgs = std::string("scaler=") + SCNAME[sc] + ",persistent=" + std::to_string(ps) + ",simplifier=" + std::to_string(simp);
-   std::string cs = t.str() + "#" + std::to_string(sc) + "," + std::to_string(ps) + "," + std::to_string(simp);
+   std::string cfgs = std::string("scaler=") + SCNAME[sc] + ",persistent=" + std::to_string(ps) + ",simplifier=" + std::to_string(simp) + (plantedCl ? "+planted" : "");
+   std::string cs = (caseName ? *caseName : t.str()) + "#" + std::to_string(sc) + "," + std::to_string(ps) + "," + std::to_string(simp);
    auto setup = [&](SoPlex & spx)
    {
       quiet(spx);
@@ -187,7 +192,7 @@ static uint64_t run_spx(const TinyLP& t, int sc, int ps, int simp, int depth, Ct
    uint64_t h = 3;
    Model mo = Model::from(t);
    XLP x = t.exact();
-   Classification cl = classify(x);
+   Classification cl = plantedCl ? *plantedCl : classify(x);
    {
       SoPlex spx;
       setup(spx);
@@ -252,8 +257,26 @@ static uint64_t run_spx(const TinyLP& t, int sc, int ps, int simp, int depth, Ct
             for(int i = 0; i < m2.m(); ++i) if(rs[i] == SPxSolver::ZERO) wsFree = true;
          }
          int st = (int)spx.optimize();
-         Classification cl2 = classify(m2.tiny().exact());
-         std::string j = judge(st, spx.objValueReal(), cl2);
+         std::string j;
+         if(plantedCl)
+         {
+            SoPlex ref;
+            quiet(ref);
+            ref.setIntParam(SoPlex::SCALER, SoPlex::SCALER_OFF);
+            ref.setIntParam(SoPlex::SIMPLIFIER, SoPlex::SIMPLIFIER_OFF);
+            load_real(ref, m2.tiny(), 0);
+            int str = (int)ref.optimize();
+            c.count("reference_solves_without_scaling");
+            // UNBOUNDED against INFEASIBLE is not judged: both are admissible answers for an LP that is primal and dual infeasible (C02); OPTIMAL against anything else is
+            bool v1 = st >= 1 && st <= 3, v2 = str >= 1 && str <= 3;
+            if(v1 && v2 && st != str && (st == 1 || str == 1)) j = "status " + std::to_string(st) + ", never-scaled object on the same final LP: status " + std::to_string(str);
+            else if(st == 1 && str == 1 && fabs(spx.objValueReal() - ref.objValueReal()) > 1e-6 * (1 + fabs(ref.objValueReal()))) j = "objective " + TinyLP::num(spx.objValueReal()) + ", never-scaled object on the same final LP: " + TinyLP::num(ref.objValueReal());
+         }
+         else
+         {
+            Classification cl2 = classify(m2.tiny().exact());
+            j = judge(st, spx.objValueReal(), cl2);
+         }
          if(!j.empty()) c.violation("reoptimize-wrong-after:" + std::string(OPNAME[ops1[a].kind]) + "@" + cfgs + (wsFree ? "+warmstart-with-nonbasic-free-row" : ""), cs, j + " | " + seq + " " + ops1[a].pretty());
       }
    }
@@ -305,9 +328,20 @@ int main(int argc, char** argv)
       p += 9;
       std::string cs = doc.substr(p, doc.find('"', p) - p);
       size_t h = cs.find('#');
-      TinyLP t = TinyLP::parse(cs.substr(0, h));
       std::string rest = cs.substr(h + 1);
       mallopt(M_PERTURB, 85);
+      PlantedSpec psp;
+      if(cs.compare(0, 2, "P:") == 0 && PlantedSpec::parse(cs.substr(0, h), psp))
+      {
+         PlantedLP P = planted(psp);
+         std::string nm = psp.str();
+         int a = -1, b = 0, d = 0;
+         if(sscanf(rest.c_str(), "%d,%d,%d", &a, &b, &d) == 3) return replay_case([&](Ctx & c) { run_spx(P.lp, a, b, d, 1, c, &P.cl, &nm); });
+         for(int k = 1; k <= 6; ++k) if(rest == SCNAME[k]) return replay_case([&](Ctx & c) { run_bare(P.lp, k, c, &nm); });
+         printf("REPLAY-ERROR bad case\n");
+         return 2;
+      }
+      TinyLP t = TinyLP::parse(cs.substr(0, h));
       if(rest.compare(0, 5, "cycle") == 0) { int sc = atoi(rest.c_str() + 6); return replay_case([&](Ctx & c) { run_cycle(t, sc, c); }); }
       int a = -1, b = 0, d = 0;
       if(sscanf(rest.c_str(), "%d,%d,%d", &a, &b, &d) == 3) return replay_case([&](Ctx & c) { run_spx(t, a, b, d, 2, c); });
@@ -352,6 +386,39 @@ int main(int argc, char** argv)
    }, [&](uint64_t idx, uint64_t) { TinyLP t; lpAt(fb, strideB, idx / 28, t); int k = int(idx % 28); return t.str() + "#" + std::to_string(k % 7) + "," + std::to_string((k / 7) % 2) + "," + std::to_string(k / 14); }, o,
    [&](uint64_t idx, uint64_t) { int k = int(idx % 28); return std::string("@scaler=") + SCNAME[k % 7] + ",persistent=" + std::to_string((k / 7) % 2) + ",simplifier=" + std::to_string(k / 14); });
 
+   {
+      // planted LPs in their power-of-two rescaled form (entries spanning 2^-16..2^18): A' six scalers on the bare LP, B' scaler x persistent x simplifier x modifications
+      static PlantedGrid pg;
+      pg.sizes = {{5, 8}, {10, 10}, {16, 12}, {24, 24}, {40, 40}};
+      pg.densities = {15, 40};
+      pg.seeds = thorough ? 8 : 1;
+      pg.kinds = 4;
+      auto specA = [&](uint64_t k) { PlantedSpec sp = pg.at(k); sp.magnitude = 1; return sp; };
+      rep.phase("A': six scalers on bare planted LPs up to 40x40 (rescaled by powers of two)", pg.size() * 6, [&](uint64_t idx, int, Ctx & c) -> uint64_t
+      {
+         PlantedSpec sp = specA(idx / 6);
+         PlantedLP P = planted(sp);
+         std::string nm = sp.str();
+         c.count("planted_bare_scalings");
+         return run_bare(P.lp, int(idx % 6) + 1, c, &nm);
+      }, [&](uint64_t idx, uint64_t) { return specA(idx / 6).str() + "#" + SCNAME[idx % 6 + 1]; }, o, [&](uint64_t idx, uint64_t) { return std::string("@") + SCNAME[idx % 6 + 1] + "+planted"; });
+      static PlantedGrid pb;
+      pb.sizes = {{5, 8}, {10, 10}, {16, 12}};
+      pb.densities = {40};
+      pb.seeds = thorough ? 4 : 1;
+      rep.phase("B': planted LPs up to 16x12 (rescaled) x scaler x persistent x simplifier x modifications", pb.size() * 28, [&](uint64_t idx, int, Ctx & c) -> uint64_t
+      {
+         PlantedSpec sp = pb.at(idx / 28);
+         sp.magnitude = 1;
+         PlantedLP P = planted(sp);
+         std::string nm = sp.str();
+         int k = int(idx % 28);
+         c.count("planted_spx_cases");
+         return run_spx(P.lp, k % 7, (k / 7) % 2, k / 14, 1, c, &P.cl, &nm);
+      }, [&](uint64_t idx, uint64_t) { PlantedSpec sp = pb.at(idx / 28); sp.magnitude = 1; int k = int(idx % 28); return sp.str() + "#" + std::to_string(k % 7) + "," + std::to_string((k / 7) % 2) + "," + std::to_string(k / 14); }, o,
+      [&](uint64_t idx, uint64_t) { int k = int(idx % 28); return std::string("@scaler=") + SCNAME[k % 7] + ",persistent=" + std::to_string((k / 7) % 2) + ",simplifier=" + std::to_string(k / 14) + "+planted"; });
+      rep.extra["planted_grid"] = jstr("A': sizes 5x8 10x10 16x12 24x24 40x40, densities 15/40 %, degenerate 0/1, min/max, 4 kinds, rescaled, seeds 0.." + std::to_string(pg.seeds - 1) + "; B': sizes 5x8 10x10 16x12, density 40 %, 3 kinds, rescaled, seeds 0.." + std::to_string(pb.seeds - 1));
+   }
    uint64_t strideC = thorough ? 101 : 1009;
    rep.phase("C: long re-scale cycle", (fb.total / strideC) * 6, [&](uint64_t idx, int, Ctx & c) -> uint64_t
    {
